@@ -7,6 +7,7 @@
 //!   verif-harness graph  <module> <graph.json> <seed> <quick|thorough>
 mod adsr;
 mod exact;
+mod glide;
 mod graphrun;
 mod lfo;
 mod midi;
@@ -56,6 +57,7 @@ fn main() {
                 "adsr" => adsr::record(driver, seed, thorough, &mut out),
                 "quant" => quant::record(driver, seed, thorough, &mut out),
                 "ribbon" => ribbon::record(driver, seed, thorough, &mut out),
+                "glide" => glide::record(driver, seed, thorough, &mut out),
                 _ => usage(),
             };
             let n = out.finish();
@@ -75,6 +77,7 @@ fn main() {
                 "adsr" => adsr::rerun(&lines, &mut out),
                 "quant" => quant::rerun(&lines, &mut out),
                 "ribbon" => ribbon::rerun(&lines, &mut out),
+                "glide" => glide::rerun(&lines, &mut out),
                 _ => usage(),
             }
             out.finish();
